@@ -707,11 +707,27 @@ where
         }
     }
 
+    /// Map a raw hash away from the values the table reserves as slot markers.
+    ///
+    /// The standard storage uses `hash == 0` for an empty slot and `hash == u64::MAX` for a
+    /// deleted one, so a caller-supplied hasher that produces either value must not be
+    /// stored or compared as is.
+    #[inline]
+    fn normalize_hash(hash: u64) -> u64 {
+        if hash == 0 {
+            1
+        } else if hash == u64::MAX {
+            u64::MAX - 1
+        } else {
+            hash
+        }
+    }
+
     /// Hash a key using the configured hasher
     fn hash_key(&self, key: &K) -> u64 {
         let mut hasher = self.hash_builder.build_hasher();
         key.hash(&mut hasher);
-        hasher.finish()
+        Self::normalize_hash(hasher.finish())
     }
 
     /// Hash a borrowed key using the configured hasher
@@ -722,7 +738,7 @@ where
     {
         let mut hasher = self.hash_builder.build_hasher();
         key.hash(&mut hasher);
-        hasher.finish()
+        Self::normalize_hash(hasher.finish())
     }
 
     /// Resize the storage to accommodate more elements
@@ -993,7 +1009,7 @@ where
 
         let mut hasher = hash_builder.build_hasher();
         key.hash(&mut hasher);
-        let hash = hasher.finish();
+        let hash = Self::normalize_hash(hasher.finish());
 
         let capacity = entries.len();
         let index = (hash as usize) & *mask;
@@ -1087,7 +1103,7 @@ where
 
         let mut hasher = hash_builder.build_hasher();
         key.hash(&mut hasher);
-        let hash = hasher.finish();
+        let hash = Self::normalize_hash(hasher.finish());
 
         let capacity = entries.len();
         let index = (hash as usize) & *mask;
